@@ -1122,7 +1122,8 @@ def claim_c02(kind, mm):
     k = kind.split(":")[0]
     # a delivery that should not exist (wrong filter / topic / subscription) is a C02 matter at
     # the step that creates it: a later pull merely hands it out
-    return (k == "Pull" and "MResp" in mm) or "MMsgs" in mm or (k == "Publish" and "MResp" in mm) or "unexpected-delivery" in mm or "d.msg" in mm or "d.sub" in mm or "other-subscription" in mm
+    return (k == "Pull" and "MResp" in mm) or "MMsgs" in mm or (k == "Publish" and "MResp" in mm) or "unexpected-delivery" in mm or "d.msg" in mm or "d.sub" in mm or "other-subscription" in mm or \
+        (k == "CreateSnap" and "MSnaps" in mm)    # what a snapshot of ONE subscription records must not depend on what another one acknowledged
 
 
 def claim_c04(kind, mm):
@@ -1173,7 +1174,8 @@ def claim_c05(kind, mm):
     k = kind.split(":")[0]
     return (k == "Publish" and ("MDels" in mm or "MTime" in mm)) or (k == "Pull" and ("illegal-selection" in mm or "MResp" in mm)) or \
         (kind in ("Job:PruneCompletedDeliveries", "Job:PruneExpiredDeliveries") and ("MDels" in mm or "illegal-choice" in mm)) or \
-        "d.not_before" in mm or "d.published" in mm   # predecessor links written by any step (dead-letter forwards included),
+        (k in ("SeekTime", "SeekSnap") and "MDels" in mm) or \
+        "d.not_before" in mm or "d.published" in mm   # (a seek that revives only PART of a same-key chain lets the rest overtake;) predecessor links written by any step (dead-letter forwards included),
                                                       # and the position a delivery takes in its subscription's order
 
 
@@ -1218,34 +1220,34 @@ T_FLOAT = "float assumption: Go's float64 evaluation of min*1.1^n stays within 2
 CHECKS = {
     "C01": dict(
         props=["C01", "Tie"],
-        parts=[engine_part("delivery", 40, 600, 45, claim_c01, ["deliveries_created", "pull_nonempty", "redelivery", "nack_rescheduled"]),
+        parts=[engine_part("delivery", 48, 600, 45, claim_c01, ["deliveries_created", "pull_nonempty", "redelivery", "nack_rescheduled"]),
                stream_part(STREAM_C01), part_publish_faults, part_tx_wrapper],
         rule="[+ publish under fault: with a storage fault at every statement position (sampled for a 150-message batch) a Publish that answers OK has stored everything] [+ stream part: a message nacked on a stream (Nack list or zero deadline, also through the StreamingPull RPC) must not end up acknowledged] generated histories (profile delivery: publish/pull/ack/modack/nack/seek/jobs/clock jumps) against the production gRPC server; every step is checked "
              "locally: model step from the implementation's pre-state vs response and full five-table post-state; non-trivial = deliveries created, non-empty pulls, redeliveries",
         assumptions=BUS_ASSUME),
     "C02": dict(
         props=["C02", "Tie"],
-        parts=[engine_part("general", 40, 600, 45, claim_c02, ["pull_nonempty", "publish_ok", "publish_batch"]), timers_part(TIMERS_C02)],
+        parts=[engine_part("general", 48, 600, 45, claim_c02, ["pull_nonempty", "publish_ok", "publish_batch"]), timers_part(TIMERS_C02)],
         rule="engine profile general over several topics and subscriptions sharing topics; owned projection: Pull responses (ack id, message id, payload as canonical JSON value, "
              "attributes, ordering key, publish time, attempt) and the messages table; payloads cover whitespace, unicode, HTML-sensitive characters, big/exponent numbers, nesting, non-JSON, empty",
         assumptions=BUS_ASSUME + ["payloads are compared by JSON value (the code stores the compacted, HTML-escaped form)"]),
     "C04": dict(
         props=["C04", "C04backoff", "Tie"],
-        parts=[engine_part("delivery", 40, 600, 45, claim_c04, ["redelivery", "modack_effective", "nack_rescheduled", "pull_nonempty"], monitors=("handed-out-before-due",)), part_backoff,
-               timers_part(TIMERS_C04), stream_part(STREAM_C04), part_pull_race],
+        parts=[engine_part("delivery", 48, 600, 45, claim_c04, ["redelivery", "modack_effective", "nack_rescheduled", "pull_nonempty"], monitors=("handed-out-before-due",)), part_backoff,
+               timers_part(TIMERS_C04), stream_part(STREAM_C04), part_pull_race, part_fetch_untouched],
         rule="[+ pull race: a second puller run in full at each transaction boundary of the first one never gets a message the first one is handed] [+ real-time part: a pull already waiting returns a message when its 330 ms retry deadline passes while another message's deadline was extended to 600 s] engine profile delivery (retry policies absent/min/max/both from 200 ms to 100 s, clock jumps to lease deadline -/+ margin) + grid of NextDelayFor over policies x attempts; "
              "non-trivial = redeliveries, effective deadline changes, nacks",
         assumptions=BUS_ASSUME + [T_FLOAT, "concurrent pullers: interleavings are at transaction granularity (serialisable database), covered by the history theorems; not exhibited on the code here"]),
     "C06": dict(
         props=["C06", "Tie"],
-        parts=[engine_part("delivery", 40, 600, 45, claim_c06, ["pull_deadlettered", "nack_deadlettered", "job_effective:DeadLetterSweep"], monitors=("attempts-exceeded",)),
+        parts=[engine_part("delivery", 48, 600, 45, claim_c06, ["pull_deadlettered", "nack_deadlettered", "job_effective:DeadLetterSweep"], monitors=("attempts-exceeded",)),
                services_part(("DeadLetterSweep",), False), part_dead_letter_faults, part_fetch_untouched],
         rule="[+ fetch part: a delivery fetched but not handed out (byte budget, limit) keeps its attempt count] [+ background services part: the dead-letter service's first run = one model sweep step] engine profile delivery with dead-letter policies N in 1..4 and default, topologies from generated topics (no subscriber, several, filtered, ordered, deleted topic, self loop); "
              "non-trivial = deliveries dead-lettered by pull / nack / sweep",
         assumptions=BUS_ASSUME),
     "C05": dict(
         props=["C05", "Tie"],
-        parts=[engine_part("delivery", 40, 600, 45, claim_c05, ["pull_keyed", "publish_batch"], monitors=("overtake", "seek-revival-overtake")),
+        parts=[engine_part("delivery", 48, 600, 45, claim_c05, ["pull_keyed", "publish_batch"], monitors=("overtake", "seek-revival-overtake")),
                engine_part("seek", 16, 300, 45, claim_c05, ["pull_keyed"], monitors=("overtake", "seek-revival-overtake")),
                part_ordered_publish_faults, part_c05_seek_revival],
         rule="[+ ordering monitor: the property evaluated DIRECTLY on every observed pull of the delivery and seek profiles (a keyed message handed out while an earlier same-key one is outstanding), under the client discipline of the theorem] [+ a Publish of three same-key messages to an ordered subscription behind an outstanding same-key message, with each of its statements failing in turn: the publish fails as a whole or the chain is as the model says; written times of a batch must increase strictly (hypothesis quiet of the theorem)] engine profile delivery: 40% ordered subscriptions, keys k1 k1 k2 k3 and un-keyed messages, single and batched publishes, pulls of size 1..100, acks in any order, nacks, "
@@ -1273,7 +1275,7 @@ CHECKS = {
         assumptions=["partial: interleavings inside atomic sections and the PostgreSQL LISTEN/NOTIFY relay are not exhibited; 'promptly' is a 2 s bound with all timers >= 10 s"]),
     "C14": dict(
         props=["C14", "Tie"],
-        parts=[engine_part("delivery", 40, 600, 45, claim_c14, ["job_effective:ExpireSubs", "job_effective:PruneExpiredDeliveries", "pull_empty", "pull_nonempty"], monitors=("handed-out-after-retention",)),
+        parts=[engine_part("delivery", 48, 600, 45, claim_c14, ["job_effective:ExpireSubs", "job_effective:PruneExpiredDeliveries", "pull_empty", "pull_nonempty"], monitors=("handed-out-after-retention",)),
                services_part(("ExpireSubs", "PruneExpiredDeliveries"), False), timers_part(TIMERS_C14)],
         rule="[+ background services part: the expiry service on a prepared state (a subscription 23 min from expiring must survive); real-time part: a pull waiting across the end of a message's retention must not hand it out, delivery delay honoured by a waiting pull] engine profile delivery: retention 20 s .. 1 h and default, ttl 45 s .. 24 h and default, injected delays 0/5/40 s; the clock jumps to each lease / retention / subscription "
              "deadline -1.5 s or +1.5 s ('clearly before or clearly after'); steps whose call spans a deadline are skipped and counted; owned projection: expiry sweep, pulls (heartbeat), "
@@ -1289,7 +1291,7 @@ CHECKS = {
                                   "PostgreSQL itself is not exercised (no PostgreSQL offline); the PostgreSQL interval parser's sign/overflow behaviour is stated as refuted lemmas (F12), unreachable on SQLite"]),
     "C16": dict(
         props=["C16", "Tie"],
-        parts=[part_c16, engine_part("general", 40, 600, 45, claim_c16, ["publish_ok"])],
+        parts=[part_c16, engine_part("general", 48, 600, 45, claim_c16, ["publish_ok"])],
         rule="boundary-domain requests (names valid/wrong kind/empty/unknown/deleted, int32 min,-1,0,1,1000,max, durations absent/negative/zero/huge/invalid, nested messages absent/empty, "
              "ack ids live/stale/foreign/garbage/unknown/mixed/duplicate, masks known/unknown/repeated/empty, payloads JSON/non-JSON/empty) on every implemented RPC against a child-process server; "
              "one factor at a time plus all pairs of the numeric/nested CreateSubscription factors; outcome PANIC = process exit; error answers must leave the dump unchanged",
@@ -1297,7 +1299,7 @@ CHECKS = {
         assumptions=["partial: the handler model covers the validation logic; the enumeration is pairwise, not the full cross product"]),
     "C15": dict(
         props=["C15", "Tie"],
-        parts=[part_c15_meta, services_part(PRUNE_JOBS, False), timers_part(TIMERS_C15), engine_part("prune", 40, 600, 45, claim_c15,
+        parts=[part_c15_meta, services_part(PRUNE_JOBS, False), timers_part(TIMERS_C15), engine_part("prune", 48, 600, 45, claim_c15,
                                           ["job_effective:PruneCompletedDeliveries", "job_effective:PruneExpiredDeliveries", "job_effective:PruneCompletedMessages",
                                            "job_effective:PruneDeletedSubDeliveries", "job_effective:PruneDeletedSubs", "job_effective:PruneDeletedTopics"])],
         rule="(1) metamorphic pairs on the real code: the same generated client history (publish / pull / ack / nack / modack / purge-seek / snapshots / deletes / expiry and dead-letter sweeps / "
@@ -1339,7 +1341,7 @@ CHECKS = {
                      "concurrency of the streamer and the Go scheduler are exercised, not exhausted (the bound is proved on the window model and checked on the runs)"]),
     "C03": dict(
         props=["C03", "Tie"],
-        parts=[engine_part("delivery", 40, 600, 45, claim_c03, ["ack_effective", "ack_noop", "modack_effective", "nack_rescheduled"], monitors=("acked-redelivered",)),
+        parts=[engine_part("delivery", 48, 600, 45, claim_c03, ["ack_effective", "ack_noop", "modack_effective", "nack_rescheduled"], monitors=("acked-redelivered",)),
                stream_part(STREAM_C03), part_adapter,
                engine_part(("bulk520", "bulk1100"), 1, 1, 30, claim_c03, ["ack_effective"])],
         parallel=True,
@@ -1370,7 +1372,7 @@ CHECKS = {
         assumptions=["interleavings inside an atomic operation are not exhibited on the code; prune() is invisible (skips only exhausted entries)"]),
     "C07": dict(
         props=["C07", "Tie"],
-        parts=[part_filter_c07, engine_part("general", 40, 600, 45, claim_c07, ["publish_ok", "deliveries_created"])],
+        parts=[part_filter_c07, engine_part("general", 48, 600, 45, claim_c07, ["publish_ok", "deliveries_created"])],
         rule="grammar-generated, mutated, fuzzed and bounded-exhaustive filters x attribute maps: Go ParseString+Evaluate vs model parse+eval and vs the documented semantics; "
              "routing: engine profile general (30% filtered subscriptions, filter updates and re-creation under the same name via a scenario template), owned projection: which subscriptions "
              "get a delivery at Publish / dead-letter forward; non-trivial = the filter parsed, deliveries created",
